@@ -59,6 +59,7 @@ ApiFails(r) ==
     Fails("api_index_ids", r.index.code # 200 \/ r.index.valid = 0 \/ r.index.ids = r.ids) \cup
     Fails("api_unknown_source_404", r.unknown = 404)
 
+SrvAttribution == "\"a\" \\ b"          \* the attribution the test containers are written with: "a" \ b
 (* served tiles.json (C17): valid JSON carrying the container's metadata plus a tiles URL template and bounds / zoom
    consistent with the coverage *)
 TilesJsonFails(r) ==
@@ -68,9 +69,13 @@ TilesJsonFails(r) ==
          (IF r.valid = 0 THEN {} ELSE
           Fails("tilesjson_template", r.template = "/tiles/" \o r.q.src.sid \o "/{z}/{x}/{y}") \cup
           Fails("tilesjson_zoom", r.minzoom = r.cov_minzoom /\ r.maxzoom = r.cov_maxzoom) \cup
-          Fails("tilesjson_bounds", r.bounds_valid = 1) \cup
+          \* bounds (millionths of a degree): a proper box inside the world
+          Fails("tilesjson_bounds", Len(r.bounds_e6) = 4 /\ -180000000 <= r.bounds_e6[1] /\ r.bounds_e6[1] <= r.bounds_e6[3]
+                                     /\ r.bounds_e6[3] <= 180000000 /\ -90000000 <= r.bounds_e6[2] /\ r.bounds_e6[2] <= r.bounds_e6[4]
+                                     /\ r.bounds_e6[4] <= 90000000) \cup
           Fails("tilesjson_format", r.format = r.q.src.tf) \cup
-          Fails("tilesjson_metadata", r.attribution_ok = 1))
+          \* the attribution given to the container comes back (MBTiles stores a fixed set of keys only)
+          Fails("tilesjson_metadata", r.q.src.fmt = "mbtiles" \/ r.attribution = SrvAttribution))
 
 (* design level: the transcribed optimize_compression picks only listed encodings and never fails when
    identity is available (it always is: the server adds it) *)
